@@ -38,6 +38,18 @@ func TestAnnouncedPeriod(t *testing.T) {
 			world.Fail(t, "C16/timeout/announced-exceeds-configured", "entity created with time-out %v announces %v", created, announced)
 		}
 		period := periodOf(announced)
+		// the subscriber's connection may be slow without ever stalling: every notification takes a good part of a
+		// period to be written. The refreshes are periodic all the same - the period does not grow by what the
+		// notifications take
+		writeTakes := time.Duration(rapid.SampledFrom([]int{0, 0, 40, 50}).Draw(t, "writeTakesPercentOfPeriod")) * period / 100
+		if writeTakes > 0 {
+			p := fx.peers[0]
+			p.Cap.SetOnWrite(func(raw []byte) {
+				fx.obs.onWrite(0, raw)
+				time.Sleep(writeTakes)
+			})
+			world.Label("announced-period/slow-connection")
+		}
 		// the control ticker
 		var control atomic.Int32
 		stop := make(chan struct{})
